@@ -437,6 +437,9 @@ pub enum Fixed {
     /// the peer may have 65 535 publishes outstanding; `cfg_max` is the endpoint's own concurrency setting.  A peer with
     /// `n` unacknowledged publishes is never refused, and all of them are handled once handlers finish
     Unannounced { role: Role, cfg_max: u16, n: u16 },
+    /// two overlapping streamed publishes: the handler of the first (complete) one finishes while the payload of the second,
+    /// which is larger than the byte limit, is still arriving: the remaining chunks are still handed to its reader
+    OverlapStreamed { role: Role, limit: u16, first_done_early: bool },
 }
 
 fn ffail(role: Role, rule: &str, detail: String) -> Failure {
@@ -564,6 +567,65 @@ pub async fn run_fixed(fx: Fixed) -> Result<CaseInfo, Failure> {
             eut.finish().await;
             Ok(CaseInfo::nontrivial(&fx).label(if overlap as u64 >= u64::from(n) { "unannounced-receive-maximum-all-concurrent" } else { "unannounced-receive-maximum-paced" }))
         }
+        Fixed::OverlapStreamed { role, limit, first_done_early } => {
+            let mut cfg = Cfg::default();
+            cfg.v3.max_receive = 0;
+            cfg.v5.max_receive = 0;
+            cfg.v3.max_receive_size = usize::from(limit);
+            cfg.v5.max_receive_size = usize::from(limit);
+            cfg.v3.min_chunk_size = 4;
+            cfg.v5.min_chunk_size = 4;
+            let eut = Eut::start(role, &cfg).await;
+            eut.handshake(&cfg).await;
+            let app = eut.app().clone();
+            app.default_open.set(false);
+            let big = u32::from(limit) * 3 + 8;
+            let a = eut.encode(&P5::Publish(Box::new(s5::Publish5 { qos: 1, pid: Some(1), topic: "t/a".into(), payload_len: 24, ..Default::default() })), &wire::payload(1, 24));
+            let b = eut.encode(&P5::Publish(Box::new(s5::Publish5 { qos: 1, pid: Some(2), topic: "t/a".into(), payload_len: big, ..Default::default() })), &wire::payload(2, big));
+            // A in two writes (streamed), completely delivered; its handler waits at its gate
+            eut.peer().send(&a[..a.len() - 10]);
+            eut.settle().await;
+            eut.peer().send(&a[a.len() - 10..]);
+            eut.settle().await;
+            // B: header and the first 12 payload bytes
+            let head = b.len() - big as usize + 12;
+            eut.peer().send(&b[..head]);
+            eut.settle().await;
+            if app.pub_enters().len() < 2 {
+                // the byte limit paused reading before B's handler started: nothing overlaps, nothing to judge here
+                app.open_all();
+                eut.peer().send(&b[head..]);
+                eut.settle().await;
+                eut.finish().await;
+                return Ok(CaseInfo::trivial().label("overlap-streamed-second-not-started"));
+            }
+            if first_done_early {
+                app.open(G_PUB, 0);
+                eut.settle().await;
+            }
+            // the rest of B's payload in two writes
+            let mid = head + (b.len() - head) / 2;
+            eut.peer().send(&b[head..mid]);
+            eut.settle().await;
+            eut.peer().send(&b[mid..]);
+            eut.settle().await;
+            app.open_all();
+            eut.settle().await;
+            let evs = app.events();
+            let got: usize = evs.iter().filter_map(|e| if let Ev::PubRead { seq: 1, data, .. } = e { Some(data.len()) } else { None }).sum();
+            let eof = evs.iter().any(|e| matches!(e, Ev::PubRead { seq: 1, end: ReadEnd::Eof, .. }));
+            let (pk, _) = eut.packets();
+            let acked = pk.iter().filter(|w| matches!(&w.pkt, P5::PubAck(x) if x.pid == 2)).count();
+            if got != big as usize || !eof || acked != 1 || !app.stops().is_empty() {
+                return Err(Failure::new(
+                    "payload-not-read",
+                    format!("C12/{}/payload-not-read/overlapping-streams", role.name()),
+                    format!("byte limit {limit}: a {big}-byte payload was being streamed when {}: its reader got {got} bytes (end of payload seen: {eof}), PUBACKs for it: {acked}; stops {:?}; unread input {}", if first_done_early { "the handler of an older publish finished" } else { "an older publish was still being handled" }, app.stops(), eut.peer().unread()),
+                ));
+            }
+            eut.finish().await;
+            Ok(CaseInfo::nontrivial(&fx).label("overlapping-streamed-publishes"))
+        }
         Fixed::DupRelThenExceed { role, rm } => {
             let mut cfg = Cfg::default();
             cfg.v5.max_receive = rm;
@@ -687,6 +749,13 @@ pub fn fixed_cases() -> Vec<Fixed> {
         out.push(Fixed::Unannounced { role: Role::V5Client, cfg_max, n });
     }
     out.push(Fixed::Unannounced { role: Role::V5Server, cfg_max: 0, n: 40 });
+    for role in [Role::V3Server, Role::V5Server, Role::V3Client] {
+        for limit in [32u16, 64] {
+            for first_done_early in [true, false] {
+                out.push(Fixed::OverlapStreamed { role, limit, first_done_early });
+            }
+        }
+    }
     for role in [Role::V3Server, Role::V5Server] {
         for limit in [60u16, 100, 200] {
             for a in [limit - 2, limit - 1, limit, limit + 1, limit / 2, limit / 2 + 1] {
